@@ -317,7 +317,12 @@ def replay(beh, workdir, seed, stats):
         if bad:
             return bad
     # the system still hands out the molecule as it is in the file
-    fresh = syst[0]
+    try:
+        fresh = syst[-1] if seed % 2 else syst[0]
+        if len(list(syst)) != 1 or len(syst[0:1]) != 1:
+            return fail('system_handout_changed', -1, field='count', atom=-1)
+    except Exception as exc:
+        return fail('system_handout_failed', -1, exception=type(exc).__name__)
     for a, h in enumerate(atoms_of(fresh, 'mol')):
         for k, f in enumerate(FIELDS):
             if not same(f, read_slot(h, f), pristine[a][k]):
